@@ -3,6 +3,7 @@
 package main
 
 import (
+	"encoding/binary"
 	"fmt"
 	"io"
 	"os"
@@ -15,6 +16,7 @@ import (
 	dragonboat "github.com/lni/dragonboat/v4"
 	"github.com/lni/dragonboat/v4/raftio"
 	pb "github.com/lni/dragonboat/v4/raftpb"
+	hk8 "github.com/lni/dragonboat/v4/verifhooks/c08"
 	hk "github.com/lni/dragonboat/v4/verifhooks/c16"
 	"verif/harness/vh"
 )
@@ -414,14 +416,20 @@ type world struct {
 	snap      *dragonboat.VerifC16
 	chunks    *hk.Chunk
 	delivered map[uint64]bool
+	recvSS    map[uint64]pb.Snapshot
 	saved     map[uint64]pb.Snapshot
 	rec       uint64
+	disk      *diskState
+	node      *hk8.Node
+	lastPanic string
 }
 
 func rootFunc(uint64, uint64) string { return rootDir }
 
-func newWorld(cut int) *world {
-	w := &world{mem: hk.NewStrictMem(), delivered: map[uint64]bool{}, saved: map[uint64]pb.Snapshot{}}
+func newWorld(cut int) *world { return newWorldKind(cut, false) }
+
+func newWorldKind(cut int, disk bool) *world {
+	w := &world{mem: hk.NewStrictMem(), delivered: map[uint64]bool{}, saved: map[uint64]pb.Snapshot{}, recvSS: map[uint64]pb.Snapshot{}}
 	w.r = &recorder{mem: w.mem, cut: cut, rec: &w.rec}
 	w.fs = &recFS{MemFS: w.mem, r: w.r}
 	if err := hk.MkdirAll(rootDir, w.fs); err != nil {
@@ -430,6 +438,12 @@ func newWorld(cut int) *world {
 	w.ldb = &cellLogDB{r: w.r}
 	w.snap = dragonboat.NewVerifC16(shardID, replicaID, rootFunc, w.ldb, w.fs)
 	w.newChunks()
+	if disk {
+		w.disk = &diskState{}
+		if oc := w.startNode(true); oc != "ok" {
+			panic("cannot start the on-disk replica: " + oc + " " + w.lastPanic)
+		}
+	}
 	w.r.enabled = true
 	return w
 }
@@ -440,16 +454,19 @@ func (w *world) newChunks() {
 		for _, m := range mb.Requests {
 			if m.Type == pb.InstallSnapshot {
 				w.delivered[m.Snapshot.Index] = true
+				w.recvSS[m.Snapshot.Index] = m.Snapshot
 			}
 		}
 	}, func(uint64, uint64, uint64) {}, rootFunc, did, w.fs)
 }
 
-func payloadOf(n uint64) []byte {
+// payloadOf is the state machine image of index: the index, then filler.
+func payloadOf(index uint64, n uint64) []byte {
 	b := make([]byte, 64*(n+1))
 	for i := range b {
 		b[i] = byte(i*7 + int(n))
 	}
+	binary.LittleEndian.PutUint64(b, index)
 	return b
 }
 
@@ -464,7 +481,7 @@ func snapshotBytes(index uint64, n uint64) []byte {
 	}
 	sw := newWorld(-1)
 	sw.r.enabled = false
-	ss, err := sw.snap.VerifSave(index, 1, payloadOf(n))
+	ss, err := sw.snap.VerifSave(index, 1, payloadOf(index, n))
 	if err != nil {
 		panic(err)
 	}
@@ -526,7 +543,7 @@ func chunksOf(index uint64, n uint64) []pb.Chunk {
 			ShardID: shardID, ReplicaID: replicaID, From: fromID,
 			ChunkId: uint64(i), ChunkCount: uint64(len(parts)),
 			FileChunkId: uint64(i), FileChunkCount: uint64(len(parts)),
-			ChunkSize: uint64(len(p)), Index: index, Term: 1,
+			ChunkSize: uint64(len(p)), Index: index, Term: 1, OnDiskIndex: index,
 			Filepath: fmt.Sprintf("snapshot-%016X.gbsnap", index), FileSize: uint64(len(data)),
 			Membership: pb.Membership{Addresses: map[uint64]string{1: "a1", 2: "a2"}},
 			Data:       append([]byte(nil), p...),
@@ -571,7 +588,7 @@ func (w *world) do(c command) (outcome string) {
 				outcome = "skip"
 				return
 			}
-			ss, err := w.snap.VerifSave(c.i, 1, payloadOf(c.n))
+			ss, err := w.snap.VerifSave(c.i, 1, payloadOf(c.i, c.n))
 			if err != nil {
 				outcome = "err"
 				return
@@ -621,7 +638,11 @@ func (w *world) do(c command) (outcome string) {
 				outcome = "skip"
 				return
 			}
-			ud := pb.Update{ShardID: shardID, ReplicaID: replicaID, Snapshot: pb.Snapshot{ShardID: shardID, Index: c.i, Term: 1}}
+			ss, ok := w.recvSS[c.i]
+			if !ok {
+				ss = pb.Snapshot{ShardID: shardID, Index: c.i, Term: 1}
+			}
+			ud := pb.Update{ShardID: shardID, ReplicaID: replicaID, Snapshot: ss}
 			// engine.processSteps: SaveRaftState, then onSnapshotSaved
 			if err := w.ldb.SaveRaftState([]pb.Update{ud}, 0); err != nil {
 				outcome = "err"
@@ -644,6 +665,8 @@ func (w *world) do(c command) (outcome string) {
 				return
 			}
 			outcome = "ok"
+		case "RECOVER":
+			outcome = w.recoverLive(c.i)
 		case "RESTART":
 			w.newChunks()
 			if err := w.snap.VerifProcessOrphans(); err != nil {
@@ -659,11 +682,18 @@ func (w *world) do(c command) (outcome string) {
 			w.mem.ResetToSyncedState()
 			w.newChunks()
 			w.saved = map[uint64]pb.Snapshot{}
+			w.recvSS = map[uint64]pb.Snapshot{}
+			if w.disk != nil {
+				w.disk.vol = w.disk.dur
+			}
 			if err := w.snap.VerifProcessOrphans(); err != nil {
 				outcome = "err"
 				return
 			}
 			outcome = "ok"
+			if w.disk != nil {
+				outcome = w.startNode(false)
+			}
 		default:
 			panic("unknown command " + c.kind)
 		}
@@ -685,6 +715,10 @@ func (w *world) powerLoss() {
 	w.r.take()
 	w.newChunks()
 	w.saved = map[uint64]pb.Snapshot{}
+	w.recvSS = map[uint64]pb.Snapshot{}
+	if w.disk != nil {
+		w.disk.vol = w.disk.dur
+	}
 }
 
 // ---------------------------------------------------------------------------
